@@ -60,6 +60,9 @@ func c06Cases(tier string, seed int64) []core.Case {
 			cases = append(cases, core.Case{ID: fmt.Sprintf("tinymsize/%s/dotu=%v", server, dotu), Run: func(ctx *core.Ctx) core.Result {
 				return c06TinyMsize(ctx, server, dotu)
 			}})
+			cases = append(cases, core.Case{ID: fmt.Sprintf("renegotiate/%s/dotu=%v", server, dotu), Run: func(ctx *core.Ctx) core.Result {
+				return c06Renegotiate(ctx, server, dotu)
+			}})
 		}
 	}
 	return cases
@@ -607,6 +610,80 @@ func c06TinyMsize(ctx *core.Ctx, server string, dotu bool) core.Result {
 		c.Hangup()
 		res.Sig(fmt.Sprintf("%s|%v|tiny|%d", server, dotu, msize))
 		h.check(what, "tinymsize")
+	}
+	return res
+}
+
+// several Tversions on one connection, asking for smaller and then larger sizes, with pipelined traffic in between
+// (so reply buffers sized for one negotiation are in circulation during the next) and reads whose counts are at
+// the limits of the size asked for and of the size granted.
+func c06Renegotiate(ctx *core.Ctx, server string, dotu bool) core.Result {
+	var res core.Result
+	h := newHostile(ctx, &res, server, dotu)
+	if h == nil {
+		return res
+	}
+	defer h.done()
+	seqs := [][]uint32{{64, 8192}, {128, 4096}, {8192, 256, 8192}, {24, 8192}, {300, 8192, 100, 8192}, {64, 65535}, {4096, 8192, 70000},
+		{40, 80, 160, 320, 640, 8192}, {8192, 64, 64, 8192}}
+	for si, seq := range seqs {
+		for _, pipelined := range []int{0, 8, 40} {
+			c := h.s.Dial()
+			what := fmt.Sprintf("%s dotu=%v renegotiate msizes=%v pipelined=%d", server, dotu, seq, pipelined)
+			ctx.Note([]byte(what))
+			fmt.Fprintln(os.Stderr, "--- session:", what)
+			tag := uint16(0)
+			send := func(rm uint32, m *wire.Msg) *wire.Msg {
+				tag++
+				m.Tag = tag
+				if len(wire.Encode(m, c.Dotu())) > int(rm) {
+					return nil
+				}
+				r, err := c.Rpc(m, 2*time.Second)
+				if err != nil || r.Msg == nil {
+					return nil
+				}
+				return r.Msg
+			}
+			for _, asked := range seq {
+				r, err := c.Version(asked, h.ver(), 2*time.Second)
+				if err != nil || r.Msg == nil || r.Msg.Type != wire.Rversion {
+					break
+				}
+				rm := r.Msg.Msize
+				send(rm, &wire.Msg{Type: wire.Tattach, Fid: 0, Afid: wire.NOFID, Uname: "root", Nuname: 0})
+				send(rm, &wire.Msg{Type: wire.Twalk, Fid: 0, Newfid: 5, Wname: []string{"listing"}})
+				send(rm, &wire.Msg{Type: wire.Topen, Fid: 5, Mode: 0})
+				send(rm, &wire.Msg{Type: wire.Twalk, Fid: 0, Newfid: 6, Wname: []string{"file11" + strings.Repeat("x", 33)}})
+				send(rm, &wire.Msg{Type: wire.Topen, Fid: 6, Mode: 0})
+				// buffers of this negotiation go into circulation
+				var burst []*wire.Msg
+				for i := 0; i < pipelined; i++ {
+					tag++
+					burst = append(burst, &wire.Msg{Type: wire.Twalk, Tag: tag, Fid: 0, Newfid: 100 + uint32(i)})
+				}
+				if len(burst) > 0 {
+					_ = c.Send(burst...)
+					for _, m := range burst {
+						if _, err := c.WaitTag(m.Tag, 2*time.Second); err != nil {
+							break
+						}
+					}
+				}
+				for _, cnt := range []uint32{asked - 24, rm - 24, asked, 4096, rm - 23, 1} {
+					if cnt > 1<<30 {
+						continue
+					}
+					send(rm, &wire.Msg{Type: wire.Tread, Fid: 5, Offset: 0, Count: cnt})
+					send(rm, &wire.Msg{Type: wire.Tread, Fid: 6, Offset: 0, Count: cnt})
+					send(rm, &wire.Msg{Type: wire.Tstat, Fid: 6})
+					res.Count("reads_after_renegotiation", 2)
+				}
+			}
+			c.Hangup()
+			res.Sig(fmt.Sprintf("%s|%v|renegotiate|%d|%d", server, dotu, si, pipelined))
+			h.check(what, "renegotiate")
+		}
 	}
 	return res
 }
